@@ -456,6 +456,11 @@ class SimTimeModule(object):
         if d < 0:
             raise ValueError("sleep length must be non-negative")
         sim.trace.ev("sleep", float(d))
+        po = self._net.policy.rate("sleep_overshoot")
+        if po > 0 and self._net.tape.chance(po):
+            # a sleep lasts at least as long as asked, never exactly
+            self._net.world.fault("sleep_overshoot")
+            d = d * (1.0 + (1 + self._net.tape.draw(8)) / 4.0) + 0.001
         sim.run_until(sim.now + max(0.0, d))
         self._net.world.check_pending()
 
